@@ -229,3 +229,15 @@ package signing
 //@   loop 1 invariant forall m in 0..sent(errChs) :: (errBlamesPeer(round, errChs, m) && arr(errAt(errChs, m).culprits) != arr(culprits))
 //@   loop 1 invariant forall c in 0..len(culprits) :: peerOf(round, culprits[c])
 //@   loop 2 invariant round.started && i == sgI(round) && (forall k in 0..sgN(round) :: (k != i ==> (round.temp.c1jis[k] != nil && round.temp.pi1jis[k] != nil && round.temp.c2jis[k] != nil && round.temp.pi2jis[k] != nil)))
+
+// round_4.go: invert the sum of the broadcast theta values.
+//@ define sg3slot(m) = (!isnil(m) && istype(msgcontent(m), "*ecdsa/signing.SignRound3Message") && cast(msgcontent(m), "*ecdsa/signing.SignRound3Message") != nil)
+//@ func (*round4).Start
+//@   props C06 C05 C01
+//@   requires round != nil && round.round3 != nil && round.round3.round2 != nil && round.round3.round2.round1 != nil && round.round3.round2.round1.base != nil && ecSignWF(round)
+//@   requires [round-3-complete] forall j in 0..sgN(round) :: (j != sgI(round) ==> sg3slot(round.temp.signRound3Messages[j]))
+//@   requires [own-values] round.temp.theta != nil && val(round.temp.theta) >= 0 && round.temp.gamma != nil && val(round.temp.gamma) >= 0 && round.temp.pointGamma != nil && validPoint(round.temp.pointGamma) && round.temp.pointGamma.curve == round.Parameters.ec && len(round.temp.ssid) <= 4096 && cap(round.temp.ssid) == len(round.temp.ssid) && (forall k in 0..len(round.temp.deCommit) :: round.temp.deCommit[k] != nil)
+//@   modifies round.number, round.started, round.ok[*], round.temp.thetaInverse, round.temp.signRound4Messages[*], sent(round.out)
+//@   ensures [C06.the-inverse-handed-to-round-5-exists] result == nil ==> (round.temp.thetaInverse != nil && 0 < val(round.temp.thetaInverse) && val(round.temp.thetaInverse) < secpN)
+//@   ensures [C01.nothing-sent-on-error] result != nil ==> sent(old(round.out)) == old(sent(round.out))
+//@   loop 0 invariant round.started && thetaInverse != nil && val(thetaInverse) >= 0 && modN != nil && val(modN) == secpN && sent(round.out) == old(sent(round.out))
